@@ -103,6 +103,36 @@ fn build(tier: Tier) -> Vec<Scenario> {
             }
         }
     }
+    // several hosts over the virtual TCP with socket buffers of one small frame (back-pressure on
+    // the wire), partitioned source
+    let remote_layouts: Vec<Layout> = if tier == Tier::Quick {
+        vec![Layout::Remote(vec![1, 1])]
+    } else {
+        vec![Layout::Remote(vec![1, 1]), Layout::Remote(vec![2, 1]), Layout::Remote(vec![1, 1, 1])]
+    };
+    for layout in remote_layouts {
+        let cores = layout.total_cores() as usize;
+        let cfg = JobCfg { layout, batch: BatchMode::fixed(1), capacity: 1 };
+        for (name, prog) in lib.iter().filter(|(n, _)| ["chain", "groupby", "diamond", "join-hash", "replay-shuffle", "iterate-shuffle", "nested-replay", "bcast", "two-sinks"].contains(n)) {
+            let input: Vec<i64> = vec![1, 2, 3, 4];
+            let mut s = program_scenario(
+                &format!("C04/remote-{name}"),
+                prog,
+                &input,
+                SrcKind::Par((0..input.len()).map(|i| i % cores).collect()),
+                &cfg,
+                if tier == Tier::Quick { 0 } else { 1 },
+                &ORDERS3,
+                format!("{name}:"),
+            );
+            s.params.pipe_capacity = 48;
+            if tier == Tier::Thorough {
+                s.params.short_io = true;
+                s.shards = 4;
+            }
+            out.push(s);
+        }
+    }
     // unbounded exploration with sleep sets (every Mazurkiewicz trace) of the smallest jobs
     if tier == Tier::Thorough || std::env::var("NV_UNBOUNDED").is_ok() {
         for (name, prog, input) in [
